@@ -309,6 +309,7 @@ prop('C09', 'fault_enumeration',
      'replaced operator new), then re-executed from scratch once per (operation i, position k) for every k up to the count (<=48, <=8 operations and <=120 faulted executions per program), the k-th fault point throwing; '
      'a second fault at a later operation in a third of the executions. Oracle: exactly the injected exception reaches the caller (terminate = failure), strong guarantee for listener management / assignment / copies '
      '(model snapshot restored and compared by enumeration at once), invocations leave what the callbacks did, the history continues in lock-step with the model, ledger empty and LeakSanitizer clean at the end; '
+     'pure look-ups (hasAnyListener, on a dispatcher keyed by a user type) are faulted operations whose key comparisons throw; '
      'non-trivial = a fault at position k>1 of an operation on a non-empty container',
      COMMON_ASSUME + ['fault points inside callback scripts (nested library calls) are not injected; only one fault is in flight at a time',
                       'exhaustive over k only up to the stated caps'],
